@@ -89,8 +89,10 @@ fn metric_sum(text: &str, name: &str, labels: &[(&str, &str)]) -> Option<u64> {
         let rest = &l[full.len()..];
         if !(rest.starts_with('{') || rest.starts_with(' ')) { continue; }
         if labels.iter().all(|(k, v)| l.contains(&format!("{k}=\"{v}\""))) {
-            if let Some(v) = l.rsplit(' ').next().and_then(|x| x.parse::<f64>().ok()) {
-                sum = Some(sum.unwrap_or(0) + v as u64);
+            // (integers are kept exact: a wrapped gauge shows 2^64-1, which an f64 cannot tell from 2^64-2)
+            let tok = l.rsplit(' ').next().unwrap_or("");
+            if let Some(v) = tok.parse::<u64>().ok().or_else(|| tok.parse::<f64>().ok().map(|x| x as u64)) {
+                sum = Some(sum.unwrap_or(0u64).wrapping_add(v));
             }
         }
     }
@@ -332,12 +334,22 @@ impl World {
     }
 
     fn disconnect(&mut self, k: u32) {
+        let sent = |t: &str| metric_sum(t, "num_updates_total", &[("component", UNIT)]).unwrap_or(0);
+        let sent_before = sent(&self.metrics());
         let c = self.conns.remove(&k).unwrap();
         let _ = c.stream.shutdown(std::net::Shutdown::Both);
         drop(c);
         self.lost += 1;
         let want = self.lost;
         self.wait_metrics("connection lost", |t| metric_sum(t, "bmp_tcp_in_connection_lost_count_total", &[("component", UNIT)]) == Some(want));
+        // Let the cleanup get through the gate (it sends a WithdrawBulk and an EndOfStream) before the router list is
+        // asked for: a GET /routers/ that arrives while the cleanup still holds the session's lock waits for it and
+        // then re-creates the state-machine metrics the cleanup has just dropped (observation O3 of design-notes/E2E.md;
+        // `vh e2e-list-race`). Only a settling aid: after 50 ms the case goes on whatever the gate counter says.
+        let t0 = Instant::now();
+        while sent(&self.metrics()) < sent_before + 2 && t0.elapsed() < Duration::from_millis(50) {
+            std::thread::sleep(Duration::from_micros(200));
+        }
         self.barrier();
     }
 
@@ -494,6 +506,34 @@ pub fn run_case(line: &str) -> String {
 }
 
 pub fn special(name: &str, args: &[String]) -> bool {
+    if name == "e2e-list-race" {
+        // vh e2e-list-race <rounds>: a router with a few hundred routes goes away while GET /routers/ is being asked
+        // for; afterwards nobody is connected - how often does bmp_num_connected_routers still say 1?
+        let rounds: usize = args.first().and_then(|x| x.parse().ok()).unwrap_or(50);
+        let mut stuck = 0;
+        for _ in 0..rounds {
+            let mut w = World::start();
+            w.connect(0);
+            w.send(0, &enc::mk_initiation_msg("r", "d"));
+            w.send(0, &enc::mk_peer_up_notification_msg(&pph(0), "10.0.0.1".parse().unwrap(), 11019, 4567, 111, 222, 0, 0, vec![], false));
+            for chunk in 0..6u32 {
+                let ps: Vec<String> = (1..=40u32).map(|p| (chunk * 40 + p).to_string()).collect();
+                w.send(0, &enc::mk_raw_route_monitoring_msg(&pph(0), update_bytes(0, 1, &ps.join(","), 0, "-")));
+            }
+            let c = w.conns.remove(&0).unwrap();
+            drop(c);
+            w.lost += 1;
+            for _ in 0..20 { let _ = w.get("/routers/"); }
+            let want = w.lost;
+            w.wait_metrics("connection lost", |t| metric_sum(t, "bmp_tcp_in_connection_lost_count_total", &[("component", UNIT)]) == Some(want));
+            std::thread::sleep(Duration::from_millis(20));
+            let n = metric_sum(&w.metrics(), "bmp_num_connected_routers_total", &[("component", UNIT)]).unwrap_or(0);
+            if n != 0 { stuck += 1; }
+            w.stop();
+        }
+        println!("rounds {rounds}: bmp_num_connected_routers stayed above 0 with nobody connected in {stuck}");
+        return true;
+    }
     if name == "e2e-raw" {
         // debugging aid: vh e2e-raw '<case>' <path> : run the case, then print one HTTP resource raw
         let mut w = World::start();
